@@ -848,7 +848,22 @@ func oracleC14(c *Case, o *Outcome, log []Access, mr *modelResult, asserted bool
 	if mr.sawCycle && o.OK {
 		return "cycle-accepted", "cycle-accepted", "the served include graph contains a cycle but the build returned a catalog"
 	}
-	if o.Err != nil && strings.Contains(o.Err.Msg, "recursion is detected") && strings.HasPrefix(strings.TrimLeft(o.Err.Quote, " \t"), "INCLUDE") && !mr.sawCycle && !mr.pathCycle && !mr.abstained {
+	// the macro recursion check reuses the message of the include recursion error; it is located at
+	// a PASTE or MACRO keyword. Any OTHER line that is blamed for "file dependency recursion" while
+	// no served file includes itself is a false recursion error
+	q := ""
+	if o.Err != nil {
+		q = strings.TrimLeft(o.Err.Quote, " \t")
+		// what stands AT the error position says more than the quoted line (in a file of mixed line
+		// endings the quote may span several lines)
+		if o.Err.Index >= 0 && o.Err.Index < len(o.Err.content) {
+			at := string(o.Err.content[o.Err.Index:])
+			if strings.HasPrefix(at, "PASTE") || strings.HasPrefix(at, "MACRO") || strings.HasPrefix(at, "INCLUDE") {
+				q = at
+			}
+		}
+	}
+	if o.Err != nil && strings.Contains(o.Err.Msg, "recursion is detected") && (strings.HasPrefix(q, "INCLUDE") || (asserted && !strings.HasPrefix(q, "PASTE") && !strings.HasPrefix(q, "MACRO"))) && !mr.sawCycle && !mr.pathCycle && !mr.abstained {
 		return "false-recursion", "false-recursion", fmt.Sprintf("recursion error reported at %s:%d but no file of the served include graph includes itself", o.Err.File, o.Err.Line)
 	}
 	if mr.failFile != "" && o.Err != nil && !mr.abstained {
